@@ -52,6 +52,15 @@ around the library's own request function: called once per request, 2 d per swee
 plus the pre-iteration line, same result), an integer-valued objective returned as integer ndarray (cache clauses),
 d = 6 (9 thorough) modes and mode sizes up to 40 (70 thorough).
 
+Input FORMS (opt keys y0 / num / call / vform / prekey, run through all five clauses; the reference is always the float64 image
+of what is passed): the start with float32 / alternating float32-float64 / int64 / int32 / alternating int64-float64 cores
+(integer-valued, still generic: rint(100 G)), read-only, Fortran-ordered, non-contiguous cores, the core list as tuple; every
+numeric option (m, e, nswp, tau, dr_min, dr_max, tau0, k0, e_vld) as np.int64 / np.float64, np.int32 / np.float32, 0-d array,
+the budget as float; every argument positionally in the documented order (pos, mix:2, mix:5, min, kwmin via gen.call_form);
+validation indices as int32 / uint8 / int64, Fortran-ordered, non-contiguous, read-only arrays or tuple of tuples, values as
+float32 / non-contiguous / read-only arrays or list (float32 values: the reported e_vld of an exact result is then the
+rounding of the values, <= 1e-6); the cache pre-filled with tuples of np.int64 -> np.float64.
+
 Conditioning rule ("almost all tensors"): SKIP unless every unfolding of T has sigma_r / sigma_1 >= 1e-3 at
 its generic rank r = min(rho, product of mode sizes on either side).
 """
@@ -69,7 +78,10 @@ BOUNDS = ('d in 2..4 (6; 9 thorough), n_k in 1..6 (40; 70 thorough), rho <= 3 (q
           'for the info clause; target scale 1e-12..1e12 (1e+-30 thorough), start scale 1e+-8, tau {1,1.01,3,1e6}, tau0 '
           '{1,2,10}, k0 {1,2}, F-ordered / non-contiguous starts, list-form validation data, func hook, log=True, '
           'integer-valued objective; runs ended inside a sweep by budget / objective at every evaluation after the ranks '
-          'reached rho: 6 shapes d = 2..5 (16 thorough, d <= 6) x rho 1..3 x 3 (10) start / growth modes x {m, func}')
+          'reached rho: 6 shapes d = 2..5 (16 thorough, d <= 6) x rho 1..3 x 3 (10) start / growth modes x {m, func}; input '
+          'forms: 20 (28 thorough) combinations of start dtype f32 / mixed / i64 / i32 / read-only / F / view / tuple, numeric '
+          'options as np.int64 / np.int32 / np.float32 / 0-d, positional call forms, validation data int32 / uint8 / F / view '
+          '/ float32 / tuple, NumPy-typed pre-filled cache, each through all five clauses (220 quick cases)')
 
 FUNCS = ('cross.cross', 'cross._func', 'cross._func_eval', 'cross._iter', 'utils._info_appr', 'utils._maxvol')
 HUGE = 10 ** 18
@@ -129,6 +141,12 @@ def _setup(n, rho, r0, tseed, yseed, opt=None):
     Y0 = gen.tt(n, r0, yseed, 'gauss', order=opt.get('order') or 'C')
     if opt.get('yscale'):
         Y0 = [G * float(opt['yscale']) for G in Y0]
+    if opt.get('y0'):
+        # input FORM of the start (gen.tt_form: f32 / mixed / i64 / imixed / F / V / ro / tuple); integer dtypes get the
+        # integer-valued, still generic start rint(100 G)
+        if any(t in opt['y0'] for t in ('i64', 'i32', 'imixed')):
+            Y0 = [np.rint(100.0 * G) for G in Y0]
+        Y0, _ = gen.tt_form(Y0, opt['y0'])
     return T, Y0
 
 
@@ -149,8 +167,33 @@ def _xkw(opt, f=None):
     return kw
 
 
+# (m_cache_scale is not converted: the suite passes 10**18 to keep 'conv' out, and 10**18 * info['m'] leaves int64)
+NUMS = ('m', 'e', 'nswp', 'tau', 'dr_min', 'dr_max', 'tau0', 'k0', 'e_vld')
+# documented order of the parameters of cross and their documented defaults (for the positional call forms)
+XNAMES = ('f', 'Y0', 'm', 'e', 'nswp', 'tau', 'dr_min', 'dr_max', 'tau0', 'k0', 'info', 'cache', 'I_vld', 'y_vld', 'e_vld',
+          'cb', 'func', 'm_cache_scale', 'log')
+XDEFAULTS = (gen.call_form.REQ, gen.call_form.REQ, None, None, None, 1.1, 1, 1, 1.05, 100, None, None, None, None, None, None,
+             None, 5, False)
+
+
+def _call(opt, f, Y0, **kw):
+    """teneva.cross(f, Y0, **kw) in the FORM named in opt: num = 'np64' / 'np32' / '0d' (every numeric option as NumPy scalar /
+    0-d array; a budget additionally as float with 'float'), call = 'pos' / 'mix:k' / 'min' / 'kwmin' (gen.call_form with the
+    documented parameter order; the info dictionary must be given)."""
+    opt = opt or {}
+    if opt.get('num'):
+        kw = gen.num_kwargs(kw, opt['num'], NUMS if opt['num'] != 'float' else ('m',))
+    if opt.get('call'):
+        vals = [f, Y0] + [kw.get(name, dv) for name, dv in zip(XNAMES[2:], XDEFAULTS[2:])]
+        assert set(kw) <= set(XNAMES) and kw.get('info') is not None
+        return gen.call_form(teneva.cross, XNAMES, vals, XDEFAULTS, opt['call'])
+    return teneva.cross(f, Y0, **kw)
+
+
 def _cross(opt, f, Y0, **kw):
     """teneva.cross; with opt['log'] the progress lines are captured and returned as second value."""
+    if (opt or {}).get('num') or (opt or {}).get('call'):
+        return _call(opt, f, Y0, **kw), None
     if (opt or {}).get('log'):
         import contextlib, io
         out = io.StringIO()
@@ -164,8 +207,14 @@ def _vld(T, n, seed, cnt=12, opt=None):
     g = gen.rng('C05vld', seed)
     I = np.stack([g.integers(0, k, size=cnt) for k in n], axis=1)
     y = T[tuple(I.T)]
-    if (opt or {}).get('vform') == 'list':
+    vf = (opt or {}).get('vform')
+    if vf == 'list':
         return I.tolist(), [float(v) for v in y]
+    if vf:
+        # 'i32+F' / 'u8+ro' / 'V' ...: form of the index array (gen.idx_form); a token after '|' is the form of the values
+        # (gen.val_form: 'f32', 'V', 'ro', 'list'; the float64 image of what is passed is the reference of every check)
+        fi, _, fy = vf.partition('|')
+        return gen.idx_form(I, fi), gen.val_form(y, fy)[0]
     return I, y
 
 
@@ -218,7 +267,8 @@ def reproduce(n, rho, r0, dr_min, dr_max, nswp, tseed, yseed, cache, vld, opt=No
     rel = np.linalg.norm(gen.dense(Y) - T) / np.linalg.norm(T)
     if not rel <= 1e-8:
         return FAIL(f'relative error {rel:.3e} > 1e-8; ranks {[G.shape[2] for G in Y[:-1]]}, evaluated {info["m"]}')
-    if vld and not (0 <= info['e_vld'] <= 1e-8):
+    evtol = 1e-6 if 'f32' in str((opt or {}).get('vform')) else 1e-8      # (validation values rounded to float32)
+    if vld and not (0 <= info['e_vld'] <= evtol):
         return FAIL(f"reported e_vld {info['e_vld']:.3e} although the result equals the target")
     return PASS
 
@@ -270,13 +320,13 @@ def interrupted_every_call(n, rho, r0, dr_min, dr_max, extra, tseed, yseed, cach
         kw['I_vld'], kw['y_vld'] = _vld(T, n, tseed, opt=opt)
     # requests of the unconstrained uncached run (sizes), and the calls of the unconstrained run with this cache setting
     unc = _Oracle(T)
-    teneva.cross(unc, Y0, nswp=nswp, info={}, cache=None, **kw)
+    _call(opt, unc, Y0, nswp=nswp, info={}, cache=None, **kw)
     starts = {0: 0}
     for j, b in enumerate(unc.batches):
         starts[max(starts) + len(b)] = j + 1
     iref = {}
     ref = _PosOracle(T, iref)
-    teneva.cross(ref, Y0, nswp=nswp, info=iref, cache={} if cache else None, **kw)
+    _call(opt, ref, Y0, nswp=nswp, info=iref, cache={} if cache else None, **kw)
     if iref['stop'] != 'nswp' or len(unc.batches) != 2 * d * nswp:
         return FAIL(f"reference run: stop {iref['stop']}, {len(unc.batches)} requests for {nswp} sweeps")
     tested, nT, rows_before = 0, float(np.linalg.norm(T)), 0
@@ -295,7 +345,7 @@ def interrupted_every_call(n, rho, r0, dr_min, dr_max, extra, tseed, yseed, cach
                 continue
         else:
             kw2 = kw
-        Y = teneva.cross(f, Y0, nswp=nswp, info=info, cache={} if cache else None, **kw2)
+        Y = _call(opt, f, Y0, nswp=nswp, info=info, cache={} if cache else None, **kw2)
         where = f'{end} at evaluation {k} (sweep {sw + 1}, request {j + 1} of {2 * d})'
         if info.get('stop') != end or info.get('nswp') != sw:
             return FAIL(f"{where}: stop {info.get('stop')!r} after {info.get('nswp')} sweeps")
@@ -308,7 +358,7 @@ def interrupted_every_call(n, rho, r0, dr_min, dr_max, extra, tseed, yseed, cach
         if not rel <= 1e-8:
             return FAIL(f'{where}: relative error {rel:.3e} > 1e-8 although the working ranks '
                         f'{[G.shape[2] for G in Y[:-1]]} have reached rho = {rho}; evaluated {info["m"]}')
-        if vld and not (0 <= info['e_vld'] <= 1e-8):
+        if vld and not (0 <= info['e_vld'] <= (1e-6 if 'f32' in str((opt or {}).get('vform')) else 1e-8)):
             return FAIL(f"{where}: reported e_vld {info['e_vld']:.3e} although the result equals the target")
         tested += 1
     return PASS if tested else TRIVIAL('no evaluation after the ranks reached rho')
@@ -333,6 +383,8 @@ def _cached_pair(n, rho, r0, dr_min, dr_max, nswp, tseed, yseed, prefill, vld, o
                    m_cache_scale=HUGE, **kw)
     pre = _prefill(T, n, prefill, tseed)
     cache = dict(pre)
+    if (opt or {}).get('prekey') == 'np':       # pre-filled by the caller with NumPy integers / NumPy floats (equal keys)
+        cache = {tuple(np.int64(x) for x in key): np.float64(val) for key, val in pre.items()}
     fb, ib = _Oracle(T), {}
     Yb, _ = _cross(opt, fb, Y0, nswp=nswp, dr_min=dr_min, dr_max=dr_max, info=ib, cache=cache,
                    m_cache_scale=HUGE, **kw)
@@ -410,11 +462,12 @@ def info_reports(n, rho, r0, dr_min, dr_max, nswp, tseed, yseed, cache, vld, end
     kw = dict(dr_min=dr_min, dr_max=dr_max, m_cache_scale=HUGE, **_xkw(opt))
     I_vld = y_vld = None
     if vld or end == 'e_vld':
-        I_vld, y_vld = _vld(T, n, tseed)
         kw['I_vld'], kw['y_vld'] = _vld(T, n, tseed, opt=opt)
+        # reference: the int64 / float64 image of what is passed
+        I_vld, y_vld = np.array(kw['I_vld'], dtype=np.int64), np.array(kw['y_vld'], dtype=float)
     # reference run to know the unconstrained number of rows / calls
     ref, iref = _Oracle(T), {}
-    teneva.cross(ref, Y0, nswp=nswp, info=iref, cache={} if cache else None, **kw)
+    _call(opt, ref, Y0, nswp=nswp, info=iref, cache={} if cache else None, **kw)
     f = _Oracle(T)
     seen = []                       # (Y copy, Yold copy) at every callback
 
@@ -431,7 +484,7 @@ def info_reports(n, rho, r0, dr_min, dr_max, nswp, tseed, yseed, cache, vld, end
     elif end == 'e_vld':
         kw['e_vld'] = 1e-6 if frac < 0.5 else 1e+10
     info = {}
-    Y = teneva.cross(f, Y0, nswp=nswp, info=info, cache={} if cache else None, cb=cb, **kw)
+    Y = _call(opt, f, Y0, nswp=nswp, info=info, cache={} if cache else None, cb=cb, **kw)
     msg = gen.wf(Y, n)
     if msg:
         return FAIL('result not well-formed: ' + msg)
@@ -663,3 +716,54 @@ def cases(tier, seed):
                     yield 'C05.cross.info_reports', dict(
                         n=n, rho=rho, r0=r0, dr_min=a, dr_max=b, nswp=nswp, tseed=sd(), yseed=sd(), cache=bool(k % 2),
                         vld=bool((k // 2) % 2) or 'vform' in o, end=end, frac=frac, opt=o)
+    # ------------------------------------------------------------ input FORMS (own generator): the start as float32 / mixed /
+    # integer-dtype / read-only / non-contiguous cores or as a tuple, every numeric option as NumPy scalar / 0-d array (budget
+    # also as float), positional call forms in the documented parameter order, validation data as int32 / uint8 / Fortran-ordered
+    # / non-contiguous / read-only / float32 / tuple forms, a cache pre-filled with NumPy-typed keys and values
+    g4 = gen.rng('C05forms', seed)
+
+    def sf():
+        return int(g4.integers(1 << 30))
+
+    fopts = [{'y0': 'f32'}, {'y0': 'mixed'}, {'y0': 'i64'}, {'y0': 'imixed+V'}, {'y0': 'tuple'}, {'y0': 'ro'},
+             {'y0': 'F+ro+tuple'}, {'y0': 'mixed1+V'}, {'num': 'np64'}, {'num': 'np32'}, {'num': '0d'}, {'num': 'float'},
+             {'call': 'pos'}, {'call': 'mix:2'}, {'call': 'kwmin'}, {'vform': 'i32+F'}, {'vform': 'u8+ro|f32'},
+             {'vform': 'V|V+ro'}, {'vform': 'tuple|list'}, {'y0': 'f32+tuple', 'num': 'np32', 'call': 'pos', 'vform': 'i32+V|f32'}]
+    if big:
+        fopts += [{'y0': 'i32'}, {'y0': 'f32+F'}, {'num': 'np32', 'call': 'pos'}, {'num': '0d', 'y0': 'ro+tuple'},
+                  {'call': 'min'}, {'call': 'mix:5'}, {'vform': 'i64+F+ro|f32+ro'}, {'tau': 1.5, 'tau0': 1.25, 'k0': 3, 'num': 'np32'}]
+    fshapes = [[6, 5], [3, 4, 2, 3], [2, 1, 3], [3, 3, 3]] + ([[2, 2], [1, 4], [12, 2, 12], [2] * 6] if big else [])
+    k = 0
+    for j, o in enumerate(fopts):
+        hasv = 'vform' in o
+        for q, n in enumerate(fshapes):
+            if not big and (j + q) % 2:
+                continue                        # quick: two of the four shapes per form, rotating
+            for rep in range(reps):
+                k += 1
+                rho = 1 + k % 3
+                modes = _modes(rho) + [grow(rho, 1, 1, 3)]
+                r0, a, b, nswp = modes[(j + q + rep) % len(modes)]
+                yield 'C05.cross.reproduce', dict(n=n, rho=rho, r0=r0, dr_min=a, dr_max=b, nswp=nswp, tseed=sf(), yseed=sf(),
+                                                  cache=bool(k % 2), vld=bool((k // 2) % 2) or hasv, opt=o)
+        for q, n in enumerate(fshapes[:2] if not big else fshapes[:6]):
+            if not big and (j + q) % 2 == 0:
+                continue
+            for (rho, r0, a, b, nswp) in ((2, 2, 0, 0, 3), (8, 1, 1, 2, 3)):
+                base = dict(n=n, rho=rho, r0=r0, dr_min=a, dr_max=b, nswp=nswp, tseed=sf(), yseed=sf(),
+                            opt=dict(o, prekey='np') if (j + q) % 3 == 0 else o)
+                pre = (0, 6)[(j + q) % 2] if (j + q) % 3 else 6
+                yield 'C05.cross.cache_transparent', dict(base, prefill=pre, vld=hasv)
+                yield 'C05.cross.cache_content', dict(base, prefill=pre, vld=hasv)
+            for ei, (end, frac) in enumerate(ends):
+                if big or (ei + j) % 4 == 0:
+                    k += 1
+                    rho, (r0, a, b, nswp) = ((2, (2, 0, 0, 3)), (8, (1, 1, 2, 3)))[k % 2]
+                    yield 'C05.cross.info_reports', dict(n=n, rho=rho, r0=r0, dr_min=a, dr_max=b, nswp=nswp, tseed=sf(),
+                                                         yseed=sf(), cache=bool(k % 2), vld=bool((k // 2) % 2) or hasv,
+                                                         end=end, frac=frac, opt=o)
+            k += 1
+            rho, r0, a, b = ((2, 2, 0, 0), (3, 1, 1, 2))[k % 2]
+            yield 'C05.cross.interrupted_every_call', dict(
+                n=[3, 3, 3] if not big else n, rho=rho, r0=r0, dr_min=a, dr_max=b, extra=1, tseed=sf(), yseed=sf(),
+                cache=bool(k % 2), vld=bool((k // 2) % 2) or hasv, end=('m', 'func')[(k // 2) % 2], opt=o)
